@@ -87,7 +87,8 @@ def report (E : Bee.Env Nat) (g : Bee.Gen Nat) (out : List Sexp) (probes : List 
     .list (probes.map fun p => .list [ofBool (gen E.G p E.G.start), ofInt (Bee.pcost E p E.G.start)]),
     -- decidable hypotheses of the theorems, evaluated on the case
     .list [ofBool (Bee.hasCosts E), ofBool (Bee.nonnegCosts E), ofBool (Bee.posArgCosts E), ofBool (Bee.nonnegW E),
-           ofBool (Bee.dictOK E), ofBool (Bee.initFrontOK E), ofBool (Bee.initCoverOK E)]]
+           ofBool (Bee.dictOK E), ofBool (Bee.initFrontOK E), ofBool (Bee.initCoverOK E),
+           ofBool (Bee.closedOK E)]]
 
 def handleRun (gr rej script fuel progs probes fix maxc : Sexp) : Option Sexp := do
   let fix ← fix.bool?
